@@ -52,21 +52,27 @@ def natOf (ds : List Char) : Nat := ds.foldl (fun a c => a * 10 + digitVal c) 0
 /-- doubles are finite strictly below this -/
 def doubleLimit : Rat := (2 : Rat) ^ 1024
 
-/-- value of a numeric operand `-? digits (. digits)?` with at most 15 digits; `none` = not a
-    numeral of this grammar. -/
-def number? (s : List Char) : Option Rat :=
-  let (sg, body) : Int × List Char := match s with | '-' :: r => (-1, r) | r => (1, r)
-  let ip := body.takeWhile isDigit
-  let rest := body.dropWhile isDigit
+/-- value of an integer part `ip` (digits) followed by `rest` (nothing, or `.` and digits) under a
+    sign; at most 15 digits; `none` = not of this grammar -/
+def numberCore (sg : Int) (ip rest : List Char) : Option Rat :=
   if ip = [] then none else
   match rest with
   | [] => if ip.length ≤ 15 then some ((sg * (natOf ip : Int) : Int) : Rat) else none
-  | '.' :: fp =>
-    if fp ≠ [] ∧ fp.all isDigit ∧ ip.length + fp.length ≤ 15 then
+  | c :: fp =>
+    if c = '.' ∧ fp ≠ [] ∧ fp.all isDigit ∧ ip.length + fp.length ≤ 15 then
       let q : Rat := (sg : Rat) * ((natOf ip * 10 ^ fp.length + natOf fp : Nat) : Rat) * (1 / (10 : Rat) ^ fp.length)
       if q ≥ doubleLimit ∨ q ≤ -doubleLimit then none else some q
     else none
-  | _ => none
+
+/-- value of `digits (. digits)?` under a sign -/
+def numberBody (sg : Int) (body : List Char) : Option Rat :=
+  numberCore sg (body.takeWhile isDigit) (body.dropWhile isDigit)
+
+/-- value of a numeric operand `-? digits (. digits)?`; `none` = not a numeral of this grammar. -/
+def number? (s : List Char) : Option Rat :=
+  match s with
+  | '-' :: r => numberBody (-1) r
+  | r => numberBody 1 r
 
 def isLetter (c : Char) : Bool := ('a' ≤ c && c ≤ 'z') || ('A' ≤ c && c ≤ 'Z')
 def isSpace (c : Char) : Bool := c = ' ' || c = '\t' || c = '\n' || c = '\r' || c.toNat = 11 || c.toNat = 12
